@@ -215,6 +215,23 @@ fn uint_bits_vartime<const N: usize>() {
     ow(0, ld::<N>(0).bits_vartime() as u64)
 }
 #[inline(never)]
+fn uint_bits_trait<const N: usize>() {
+    // the TRAIT path (`BitOps`, generic code): provided methods of src/traits.rs that `Uint` does not override
+    ow(0, crypto_bigint::BitOps::bits(&ld::<N>(0)) as u64);
+    ow(1, crypto_bigint::BitOps::leading_zeros(&ld::<N>(0)) as u64);
+    ow(2, crypto_bigint::BitOps::trailing_zeros(&ld::<N>(0)) as u64);
+    ow(3, crypto_bigint::BitOps::trailing_ones(&ld::<N>(0)) as u64);
+}
+/// heterogeneous comparison operators `Uint` vs `Odd<Uint>` (src/odd.rs): slot 1 must be odd
+#[inline(never)]
+fn uint_cmp_odd<const N: usize>() {
+    let m = crypto_bigint::Odd::new(ld::<N>(1)).unwrap();
+    let x = ld::<N>(0);
+    ow(0, (x < m) as u64);
+    ow(1, (x == m) as u64);
+    ow(2, ord(PartialOrd::partial_cmp(&x, &m).unwrap()));
+}
+#[inline(never)]
 fn uint_leading_zeros<const N: usize>() {
     ow(0, ld::<N>(0).leading_zeros() as u64)
 }
@@ -871,6 +888,8 @@ pub fn registry() -> Vec<Entry> {
     reg!(v, "uint.shr_vartime", uint_shr_vartime, [1, 2, 4, 8]);
     reg!(v, "uint.bits", uint_bits, [1, 2, 3, 4, 6, 8, 16]);
     reg!(v, "uint.bits_vartime", uint_bits_vartime, [1, 2, 4, 8]);
+    reg!(v, "uint.bits_trait", uint_bits_trait, [1, 2, 4, 8, 16]);
+    reg!(v, "uint.cmp_odd", uint_cmp_odd, [1, 2, 4, 8, 16]);
     reg!(v, "uint.leading_zeros", uint_leading_zeros, [1, 2, 4, 8]);
     reg!(v, "uint.trailing_zeros", uint_trailing_zeros, [1, 2, 4, 8]);
     reg!(v, "uint.trailing_ones", uint_trailing_ones, [1, 2, 4, 8]);
